@@ -167,6 +167,7 @@ class stripws_identifierlist:
 
 @contract('sqlparse.filters.others.SpacesAroundOperatorsFilter._process')
 class spaces_process:
+    tier = 'thorough'        # ~1 min of VC generation (two neighbour searches and two insertions per iteration)
     exec_class = HeapExec
     params = {'tlist': make_group}
     sites = LAYOUT_SITES
@@ -185,3 +186,150 @@ class strip_semicolon:
     ensures = []
     raises = []
     serves = ['C04']
+
+
+# --------------------------------------------------------------------------------- reindent / aligned indent / comments
+
+REG.inline_ok |= {'sqlparse.filters.reindent.ReindentFilter.nl', 'sqlparse.filters.reindent.ReindentFilter.leading_ws',
+                  'sqlparse.filters.aligned_indent.AlignedIndentFilter.nl',
+                  'sqlparse.sql.TokenList.token_not_matching',
+                  'sqlparse.filters.others.StripCommentsFilter._process.<locals>.get_next_comment'}
+
+
+def make_reindent(ex, st):
+    from sqlparse.filters.reindent import ReindentFilter
+    cur = make_group(ex, st, 'curstmt')
+    return ex.new_obj(st, 'ReindentFilter', {
+        '__class__': ReindentFilter, 'n': '\n', 'width': SInt(z3.Int('rf_width')), 'char': SStr(z3.String('rf_char')),
+        'indent': SInt(z3.Int('rf_indent')), 'offset': SInt(z3.Int('rf_offset')),
+        'wrap_after': SInt(z3.Int('rf_wrap_after')), 'comma_first': SBool(z3.Bool('rf_comma_first')),
+        'indent_columns': SBool(z3.Bool('rf_indent_columns')), 'compact': SBool(z3.Bool('rf_compact')),
+        '_curr_stmt': cur, '_last_stmt': make_group(ex, st, 'laststmt'), '_last_func': None})
+
+
+def make_aligned(ex, st):
+    from sqlparse.filters.aligned_indent import AlignedIndentFilter
+    return ex.new_obj(st, 'AlignedIndentFilter', {
+        '__class__': AlignedIndentFilter, 'n': '\n', 'char': SStr(z3.String('af_char')),
+        'indent': SInt(z3.Int('af_indent')), 'offset': SInt(z3.Int('af_offset')),
+        '_max_kwd_len': SInt(z3.Int('af_max_kwd_len'))})
+
+
+class _PureQuery:
+    """call-site model of a query helper that does not touch the tree: returns (None, None) or (i, tlist.tokens[i])
+    (frame obligation: the helper contains no tree write - checked structurally in props.C06)"""
+
+    @staticmethod
+    def model(ex, self_val, args, kw, st):
+        tl = args[0]
+        lst = ex.getattr(tl, 'tokens', st)
+        n = ex.zlen(st, lst)
+        s_none = st.fork()
+        out = [(s_none, (None, None))]
+        k = fresh('nt_idx', z3.IntSort())
+        for s1, ok in ex.decide(st, n > 0):
+            if not ok:
+                continue
+            s1.assume(z3.And(k >= 0, k < n))
+            for s2, e in ex.elem_at(s1, lst, k):
+                out.append((s2, (SInt(k), e)))
+        return out
+
+
+class _PureInt:
+    """call-site model of a helper that computes an int from the text (no tree write)"""
+
+    @staticmethod
+    def model(ex, self_val, args, kw, st):
+        return [(st, SInt(fresh('offset', z3.IntSort())))]
+
+
+class _LayoutCallee:
+    """call-site model of a sibling / recursive layout routine: it may restructure the lists of the tree it is given
+    (its own sites are verified under its own contract): afterwards the children lists are unknown"""
+
+    @staticmethod
+    def model(ex, self_val, args, kw, st):
+        for a in args:
+            if isinstance(a, Rec) and a.kind == 'Token' and st.objs[a.oid].get('tokens') is not None:
+                ex.havoc_list_ext(st, st.objs[a.oid]['tokens'].lid)
+        st.ghost['__taint__'] = st.ghost.get('__taint__', frozenset()) | {'value', 'parent', '#children'}
+        return [(st, None)]
+
+
+for _q in ('sqlparse.filters.reindent.ReindentFilter._next_token',
+           'sqlparse.filters.aligned_indent.AlignedIndentFilter._next_token'):
+    REG[_q] = _PureQuery
+for _q in ('sqlparse.filters.reindent.ReindentFilter._get_offset',):
+    REG[_q] = _PureInt
+for _q in ('sqlparse.filters.reindent.ReindentFilter._process', 'sqlparse.filters.reindent.ReindentFilter._process_default',
+           'sqlparse.filters.reindent.ReindentFilter._split_kwds', 'sqlparse.filters.reindent.ReindentFilter._split_statements',
+           'sqlparse.filters.aligned_indent.AlignedIndentFilter._process',
+           'sqlparse.filters.aligned_indent.AlignedIndentFilter._process_default',
+           'sqlparse.filters.aligned_indent.AlignedIndentFilter._split_kwds'):
+    REG[_q] = _LayoutCallee
+
+
+def _site_contract(q, params, loops=None, raises=(), serves=('C06', 'C10'), sites=None, case=None, tier='quick'):
+    ns = {'tier': tier, 'exec_class': HeapExec, 'params': params, 'sites': sites or LAYOUT_SITES, 'loops': loops or {},
+          'ensures': [], 'raises': list(raises), 'serves': list(serves), '__doc__':
+          'per-site obligations: every tree mutation reached on any path inserts a fresh whitespace token or '
+          'removes / blanks a whitespace token'}
+    cls = type('site_' + q.rsplit('.', 1)[1], (), ns)
+    REG.add(q, case or 'sites', cls)
+    return cls
+
+
+_RF = 'sqlparse.filters.reindent.ReindentFilter.'
+_site_contract(_RF + '_split_kwds', {'self': make_reindent, 'tlist': make_group},
+               loops={'0': {'bind': bind_elem_or_none('tlist', 'tidx', 'token')}})
+_site_contract(_RF + '_split_statements', {'self': make_reindent, 'tlist': make_group},
+               loops={'0': {'bind': bind_elem_or_none('tlist', 'tidx', 'token')}})
+_site_contract(_RF + '_process_where', {'self': make_reindent, 'tlist': make_group})
+_site_contract(_RF + '_process_parenthesis', {'self': make_reindent, 'tlist': make_group})
+_site_contract(_RF + '_process_values', {'self': make_reindent, 'tlist': make_group},
+               loops={'0': {'bind': bind_elem_or_none('tlist', 'tidx', 'token')}})
+_site_contract(_RF + 'process', {'self': make_reindent, 'stmt': make_group})
+_AF = 'sqlparse.filters.aligned_indent.AlignedIndentFilter.'
+_site_contract(_AF + '_split_kwds', {'self': make_aligned, 'tlist': make_group},
+               loops={'0': {'bind': bind_elem_or_none('tlist', 'tidx', 'token')}}, raises=['IndexError', 'ValueError'])
+_site_contract(_AF + '_process_parenthesis', {'self': make_aligned, 'tlist': make_group}, raises=['IndexError', 'ValueError'])
+
+# C08: what strip_comments may do to the tree
+COMMENT_SITES = {
+    'remove': ['elem.ttype in T.Comment or isinstance(elem, sql.Comment)',
+               'elem.ttype not in (T.Comment.Multiline.Hint, T.Comment.Single.Hint)'],
+    'insert': ['elem.is_group == False', 'elem.ttype in T.Whitespace'],
+    '__closed__': True,
+}
+_site_contract('sqlparse.filters.others.StripCommentsFilter._process', {'tlist': make_group},
+               loops={'0': {'bind': bind_elem_or_none('tlist', 'tidx', 'token'),
+                            # established by get_next_comment (first-match contract + the closure's own test)
+                            'inv': ['token is None or token.ttype in T.Comment or isinstance(token, sql.Comment)']}},
+               sites=COMMENT_SITES, serves=('C08',), raises=['ValueError'], tier='thorough')
+
+
+class _TokenMatchModel:
+    """Token.match: the plain form is executed from its source; the regex form (re.compile / search) is a pure
+    predicate of the token and the patterns (uninterpreted)"""
+
+    @staticmethod
+    def model(ex, self_val, args, kw, st):
+        from pyvc import models
+        from pyvc.core import source
+        regex = kw.get('regex', args[2] if len(args) > 2 else False)
+        if regex is False:
+            f = Func('sqlparse.sql.Token.match', node=source().get('sqlparse.sql.Token.match'), closure=None,
+                     self_val=self_val)
+            import sys
+            saved = ex.genv
+            ex.genv = vars(sys.modules['sqlparse.sql'])
+            try:
+                return models.call_inline(ex, f, args, kw, st, qual='sqlparse.sql.Token.match')
+            finally:
+                ex.genv = saved
+        lib('re.compile(v, flags).search(text): pure (uninterpreted predicate)')
+        return [(st, SBool(fresh('regex_match', z3.BoolSort())))]
+
+
+REG['sqlparse.sql.Token.match'] = _TokenMatchModel
